@@ -102,8 +102,8 @@ fn by_timestamp(k: usize, split: usize) {
 
 harness! { #[kani::unwind(5)] fn c02_acc_offset_k1() { by_offset(1, 1) } }
 harness! { #[kani::unwind(5)] fn c02_acc_offset_k2() { by_offset(2, 1) } }
-harness! { #[kani::unwind(5)] fn c02_acc_offset_k3() { by_offset(3, 2) } }
+harness! { #[kani::unwind(5)] fn c02_acc_offset_k3_t() { by_offset(3, 2) } }
 harness! { #[kani::unwind(5)] fn c02_acc_offset_k3_one_batch() { by_offset(3, 3) } }
 harness! { #[kani::unwind(5)] fn c02_acc_ts_k1() { by_timestamp(1, 1) } }
 harness! { #[kani::unwind(5)] fn c02_acc_ts_k2() { by_timestamp(2, 1) } }
-harness! { #[kani::unwind(5)] fn c02_acc_ts_k3() { by_timestamp(3, 1) } }
+harness! { #[kani::unwind(5)] fn c02_acc_ts_k3_t() { by_timestamp(3, 1) } }
